@@ -19,11 +19,15 @@ var (
 	SBool   = &Sort{Name: "Bool"}
 	SString = &Sort{Name: "String"}
 	SSeqInt = &Sort{Name: "Seq", Elem: SInt}
+	SSetInt = &Sort{Name: "Array", Elem: SBool} // (Array Int Bool): sets of handles
 )
 
 func (s *Sort) String() string {
 	if s.Name == "Seq" {
 		return "(Seq " + s.Elem.String() + ")"
+	}
+	if s.Name == "Array" {
+		return "(Array Int " + s.Elem.String() + ")"
 	}
 	return s.Name
 }
@@ -104,6 +108,8 @@ func (t *Term) write(sb *strings.Builder) {
 		sb.WriteString(smtStr(t.S))
 	case "seq.empty":
 		sb.WriteString("(as seq.empty " + t.Sort.String() + ")")
+	case "set.empty":
+		sb.WriteString("((as const (Array Int Bool)) false)")
 	case "forall", "exists":
 		sb.WriteString("(" + t.Op + " (")
 		for i := 0; i < t.NBound; i++ {
@@ -1079,6 +1085,13 @@ func SeqNth(s, i *Term) *Term {
 	if s.Op == "seq.unit" && i.IsInt() && i.I.Sign() == 0 {
 		return s.Args[0]
 	}
+	// nth(p ++ [e], i): split on the position (keeps seq.++ out of quantified goals)
+	if s.Op == "seq.++" && len(s.Args) >= 2 && s.Args[len(s.Args)-1].Op == "seq.unit" {
+		p := SeqConcat(s.Args[:len(s.Args)-1]...)
+		e := s.Args[len(s.Args)-1].Args[0]
+		n := SeqLen(p)
+		return Ite(And(Le(Int(0), i), Lt(i, n)), SeqNth(p, i), Ite(Eq(i, n), e, mk("seq.nth", s.Sort.Elem, s, i)))
+	}
 	return mk("seq.nth", s.Sort.Elem, s, i)
 }
 func SeqExtract(s, off, n *Term) *Term {
@@ -1090,6 +1103,19 @@ func SeqExtract(s, off, n *Term) *Term {
 func SeqUpdate(s, i, v *Term) *Term {
 	return mk("seq.update", s.Sort, s, i, SeqUnit(v))
 }
+
+// ---- sets of Int handles as (Array Int Bool)
+func SetEmpty() *Term { return &Term{Op: "set.empty", Sort: SSetInt} }
+func SetHas(s, x *Term) *Term {
+	if s.Op == "set.empty" {
+		return False
+	}
+	if s.Op == "store" && s.Args[1].String() == x.String() {
+		return s.Args[2]
+	}
+	return mk("select", SBool, s, x)
+}
+func SetAdd(s, x *Term) *Term { return mk("store", SSetInt, s, x, True) }
 
 func Forall(bound []*Term, body *Term) *Term {
 	if body.IsTrue() {
@@ -1205,7 +1231,7 @@ func substTerms(t *Term, m map[string]*Term) *Term {
 // — bounds, definitions — take effect); memoised per call
 func resimp(t *Term, m map[string]*Term, memo map[*Term]*Term) *Term {
 	switch t.Op {
-	case "int", "bool", "str", "seq.empty":
+	case "int", "bool", "str", "seq.empty", "set.empty":
 		return t
 	}
 	if r, ok := memo[t]; ok {
@@ -1313,6 +1339,8 @@ func rebuild(t *Term, args []*Term) *Term {
 		return SeqNth(args[0], args[1])
 	case "seq.extract":
 		return SeqExtract(args[0], args[1], args[2])
+	case "select":
+		return SetHas(args[0], args[1])
 	case "uf":
 		if t.Name == "un64" {
 			return UN(8, args[0])
